@@ -392,8 +392,8 @@ def concrete_disagreement(meta, d):
 # Ops whose result lines carry white-box accounting that no property speaks about.  A disagreement confined
 # to it is a broken correspondence (the model of the buffer policy no longer matches the code) but not a
 # failing input of the property: the implementation-only oracles decide the property on those cases.
-WHITEBOX_OPS = {"bufops"}                       # BufferWindow driven through the hook: fill sizes, window offsets
-ACCOUNTING_TAIL_OPS = {"bstream", "bread", "bcalls", "bskip", "breadbytes", "bparts"}   # last field = bytes delivered so far
+WHITEBOX_OPS = {"bufops", "bparts"}             # BufferWindow driven through the hook (fill sizes, window offsets); the raw buffer handed back by into_parts
+ACCOUNTING_TAIL_OPS = {"bstream", "bread", "bcalls", "bskip", "breadbytes"}   # last field = bytes delivered so far
 FAULT_STEP = re.compile(r"(^|,)[FP](,|$)")
 
 
